@@ -6,8 +6,11 @@
                                        is "r"; else fun(self.geoh5, ...)
      Workspace.open(mode=None)         already open: warn, return; mode defaults to self._mode; h5py.File(path, mode), on OSError
                                        h5py.File(path, "r"); registries reset; reader calls (project attributes, root subtree)
-     Workspace.close()                 closed: return; writable: (listing of groups) + _io_call(H5Writer.save_entity, root, "r+");
-                                       File.close()          -- no try/finally: an error in the final save leaves the handle open
+     Workspace.close()                 closed: return; writable: listing of groups (sweeps dead referents), for every Concatenator
+                                       group when `repack` is set update_attribute (update_field + clear_stats_cache), then
+                                       _io_call(H5Writer.save_entity, root, "r+"); File.close(); repack reset
+                                       -- no try/finally: an error in the final save leaves the handle open
+                                       -- the external `h5repack` run after File.close() is not modelled (see notes/C10.md)
      Workspace.__exit__                close(), returns None (the exception propagates)
      Workspace.save_as                 close(); copy bytes; open()
      shared/utils.fetch_active_workspace(ws, mode)   keep when open and `mode in ws.geoh5.mode` (substring test); else close when
@@ -105,12 +108,13 @@ Inductive res (A : Type) := Ok (a : A) | Err (e : err).
 Arguments Ok {A} a. Arguments Err {A} e.
 
 (* one _io_call: which routine, whether it is an H5Writer routine, the requested mode, whether the routine itself raises *)
-Record iocall := { c_fn : string; c_writer : bool; c_req : mode; c_fails : bool }.
+(* c_repack: the routine set Workspace.repack (it deleted something) -- observed per call by the driver *)
+Record iocall := { c_fn : string; c_writer : bool; c_req : mode; c_fails : bool; c_repack : bool }.
 
 Definition req_of (m : rmode) : mode := match m with MRW => RW | MA => A | _ => R end.
 Definition call_of_row (r : row) : iocall :=
   {| c_fn := r_callee r; c_writer := match r_cls r with Writer => true | _ => false end; c_req := req_of (r_mode r);
-     c_fails := false |}.
+     c_fails := false; c_repack := false |}.
 Definition io_rows (t : list row) : list row := filter (fun r => site_eqb (r_site r) SIoCall) t.
 
 (* a call is "from the table" when some SIoCall row has the same routine and the same literal mode *)
@@ -135,12 +139,19 @@ Record world := {
   defmode : mode;            (* Workspace._mode: the constructor's mode, used by open() without argument *)
   file : list string;        (* log of the writer routines that ran on the file *)
   locked : bool;             (* h5py.File(path, writable mode) raises OSError (file held elsewhere / not writable) *)
-  close_fault : bool         (* environment: the final save inside close() raises *)
+  close_fault : bool;        (* environment: the final save inside close() raises *)
+  repack : bool;             (* Workspace._repack *)
+  ncat : nat                 (* number of live Concatenator groups (each is refreshed by close under repack) *)
 }.
 Definition set_handle (w : world) (h : handle) : world :=
-  {| handle_of := h; defmode := defmode w; file := file w; locked := locked w; close_fault := close_fault w |}.
+  {| handle_of := h; defmode := defmode w; file := file w; locked := locked w; close_fault := close_fault w;
+     repack := repack w; ncat := ncat w |}.
+Definition set_repack (w : world) (b : bool) : world :=
+  {| handle_of := handle_of w; defmode := defmode w; file := file w; locked := locked w; close_fault := close_fault w;
+     repack := b; ncat := ncat w |}.
 Definition log (w : world) (f : string) : world :=
-  {| handle_of := handle_of w; defmode := defmode w; file := file w ++ [f]; locked := locked w; close_fault := close_fault w |}.
+  {| handle_of := handle_of w; defmode := defmode w; file := file w ++ [f]; locked := locked w; close_fault := close_fault w;
+     repack := repack w; ncat := ncat w |}.
 
 (* Workspace._io_call *)
 Definition io_call (w : world) (c : iocall) : res world :=
@@ -149,7 +160,8 @@ Definition io_call (w : world) (c : iocall) : res world :=
   | Open m =>
       if writable (c_req c) && mode_eqb m R then Err EReadOnly
       else if c_fails c then Err EFail
-      else Ok (if c_writer c then log w (c_fn c) else w)
+      else let w1 := if c_writer c then log w (c_fn c) else w in
+           Ok (if c_repack c then set_repack w1 true else w1)
   end.
 
 (* the calls of one operation, in order; the first refusal aborts the operation (the exception propagates) *)
@@ -162,21 +174,29 @@ Fixpoint io_calls (w : world) (cs : list iocall) : world * option err :=
               end
   end.
 
-Definition save_root : iocall := {| c_fn := "H5Writer.save_entity"; c_writer := true; c_req := RW; c_fails := false |}.
-Definition remove_dead : iocall := {| c_fn := "H5Writer.remove_entity"; c_writer := true; c_req := RW; c_fails := false |}.
+Definition wcall (f : string) (fails : bool) : iocall :=
+  {| c_fn := f; c_writer := true; c_req := RW; c_fails := fails; c_repack := false |}.
+Definition save_root : iocall := wcall "H5Writer.save_entity" false.
+Definition remove_dead : iocall := wcall "H5Writer.remove_entity" false.
+Definition refresh_cat : list iocall := [wcall "H5Writer.update_field" false; wcall "H5Writer.clear_stats_cache" false].
 
-(* Workspace.close; [dead] = number of dead group referents swept by `for entity in self.groups` *)
+(* the _io_call's issued by Workspace.close on a writable handle; [dead] = dead group referents swept by `self.groups` *)
+Definition close_calls (dead : nat) (w : world) : list iocall :=
+  repeat remove_dead dead
+  ++ (if repack w then List.concat (repeat refresh_cat (ncat w)) else [])
+  ++ [wcall "H5Writer.save_entity" (close_fault w)].
+
+(* Workspace.close *)
 Definition close_n (dead : nat) (w : world) : world * option err :=
   match handle_of w with
   | Closed => (w, None)
   | Open m =>
       if writable m then
-        match io_calls w (repeat remove_dead dead ++ [{| c_fn := c_fn save_root; c_writer := true; c_req := RW;
-                                                        c_fails := close_fault w |}]) with
-        | (w', None) => (set_handle w' Closed, None)
+        match io_calls w (close_calls dead w) with
+        | (w', None) => (set_repack (set_handle w' Closed) false, None)
         | (w', Some e) => (w', Some e)             (* File.close() is not reached *)
         end
-      else (set_handle w Closed, None)
+      else (set_repack (set_handle w Closed) false, None)
   end.
 Definition close := close_n 0.
 
@@ -299,17 +319,17 @@ Definition outcomes_eqb := list_eqb oerr_eqb.
 
 (* C10 single/sequence case: from Open R (workspace built with mode "r"), run [ops]; observed: per-op outcomes, final handle,
    whether the file changed (hash), and every call's static site *)
-Definition w_init (h : handle) (dm : mode) (lk : bool) : world :=
-  {| handle_of := h; defmode := dm; file := []; locked := lk; close_fault := false |}.
+Definition w_init (h : handle) (dm : mode) (lk : bool) (nc : nat) : world :=
+  {| handle_of := h; defmode := dm; file := []; locked := lk; close_fault := false; repack := false; ncat := nc |}.
 
-Definition agree_run (h : handle) (dm : mode) (lk : bool) (ops : list op)
+Definition agree_run (h : handle) (dm : mode) (lk : bool) (nc : nat) (ops : list op)
            (obs_out : list (option err)) (obs_handles : list handle) (obs_log : list string) : bool :=
   let fix go (ops : list op) (w : world) : list (option err) * list handle * world :=
       match ops with
       | [] => ([], [], w)
       | o :: r => let '(w1, e) := step w o in let '(es, hs, w2) := go r w1 in (e :: es, handle_of w1 :: hs, w2)
       end in
-  let '(es, hs, wf) := go ops (w_init h dm lk) in
+  let '(es, hs, wf) := go ops (w_init h dm lk nc) in
   outcomes_eqb es obs_out && list_eqb handle_eqb hs obs_handles && list_eqb String.eqb (file wf) obs_log.
 
 (* every traced call sits at a table row (file, line range, routine, literal mode) *)
@@ -317,8 +337,8 @@ Definition sites_ok (t : list row) (l : list (string * N * iocall)) : bool :=
   forallb (fun x => let '(f, n, c) := x in site_in_table t f n c) l.
 
 (* C11 case: with-block with an exception after k ops *)
-Definition agree_with (h : handle) (dm : mode) (fault : bool) (ops : list op) (k : nat)
+Definition agree_with (h : handle) (dm : mode) (fault : bool) (nc : nat) (ops : list op) (k : nat)
            (obs_exc : option err) (obs_handle : handle) (obs_log : list string) : bool :=
-  let w0 := {| handle_of := h; defmode := dm; file := []; locked := false; close_fault := fault |} in
+  let w0 := {| handle_of := h; defmode := dm; file := []; locked := false; close_fault := fault; repack := false; ncat := nc |} in
   let '(w1, e) := with_block ops k w0 in
   oerr_eqb e obs_exc && handle_eqb (handle_of w1) obs_handle && list_eqb String.eqb (file w1) obs_log.
